@@ -1100,6 +1100,16 @@ def rule_sig_upd(text):
     if mm:
         apps.append(_app("R-handle", text, mm.start(), mm.end(), "InstantH", "opaque handle for std::time::Instant"))
         text = text[:mm.start()] + "InstantH" + text[mm.end():]
+    # entry-API and reservation types in the signature of a helper pulled in by auto-fn
+    for pat, rep, why in ((r"(?:scc\s*::\s*hash_map\s*::\s*)?(Vacant|Occupied)Entry\s*<[^()]*?RandomState\s*>", r"\1Entry", "opaque entry handle (generic parameters dropped)"),
+                          (r"MemoryReservation\s*<\s*'_\s*>", "MemoryReservation", "lifetime parameter dropped")):
+        while True:
+            mm = re.search(pat, text)
+            if not mm:
+                break
+            new_ = mm.expand(rep)
+            apps.append(_app("R-handle", text, mm.start(), mm.end(), new_, why))
+            text = text[:mm.start()] + new_ + text[mm.end():]
     return text, apps
 
 
